@@ -47,7 +47,9 @@ Callers == UserClosers \cup IntClosers
 Senders == SenderNames
 
 VARIABLES
-  \* --- the Conn object
+  \* --- the Conn object.  mu is the lock that serialises Connect and close as a whole (lifeMu in
+  \* the code since the fix of the Connected()-in-handler deadlock; the short critical sections
+  \* under conn.mu that flip the connected flag are folded into CloseEnter / ConnectEffect)
   connected, mu, gen, sockOpen, ctx, wg, inQ, outQ,
   \* --- network, per generation
   netq,      \* lines sent by the server, not yet read by the client
